@@ -133,6 +133,8 @@ def prep_single(case):
         if u.get("fault") == "stuck":
             g.ignore_program = True
             g.ignore_set_short = True
+        # gear that needs (up to) the documented 100 ms after RANDOMISE before its new random address is there
+        g.randomise_latency = case.get("randomise_latency", [0.0, 0.1, 0.04][(len(case["units"]) + len(u.get("randoms", []))) % 3])
         if u.get("state"):
             # left over from an earlier run that never reached its TERMINATE (abandoned, failed, interrupted)
             g.init_state = u["state"]
